@@ -191,6 +191,7 @@ RULE = (
     "trapezoid of the physically mixed spectrum and K(Q+baseline) written with explicit loops (rel. 1e-10 of sum|terms|). "
     "Non-trivial = n_filters != n_sources (transposition visible) and K non-scalar or baseline != 0; adaptation cases always."
     " The own-grid comparison uses an int64 filter grid (np.arange-like) in half of the cases."
+    " Whole-number intensities as int64 array / list of ints give the captures of the same numbers as floats."
 )
 
 # ------------------------------------------------------------------------------------------------
